@@ -1,6 +1,7 @@
 //! C07 — every block the node's own producer assembles is accepted by that node and by any
 //! other node holding the same chain.
 use saito_core::core::consensus::block::Block;
+use saito_core::core::consensus::transaction::TransactionType;
 use serde_json::json;
 
 use crate::chain::BlockSpec;
@@ -165,8 +166,110 @@ async fn run_history(reg: &Regime, rng: &mut Rng, rep: &mut Report) {
     }
 }
 
+/// the node's own production path, end to end: transactions enter the pool through
+/// add_transaction_if_validates, `Mempool::bundle_block` selects the staking transaction and
+/// calls Block::create, and the node then adds its own block. Staking on, with the stake lock
+/// period spanning the whole window (gp + 1) or short (3), on chains of 3 x gp blocks.
+async fn bundle_path(rng: &mut Rng, rep: &mut Report, gp: u64, stake_period: u64) {
+    use crate::chain::Builder;
+    use std::ops::Deref;
+    let mut params = Params::with_gp(gp);
+    params.stake = 10_000;
+    params.stake_period = stake_period;
+    let mut b = Builder::new(&params, 5, &crate::corpus::default_issuance(5)).await;
+    let mut node = LNode::new(&b.actors[0].clone(), &params);
+    let mut replica = LNode::new(&b.actors[3].clone(), &params);
+    let g = b.store.get(&b.genesis).bytes.clone();
+    node.add_bytes(&g).await;
+    replica.add_bytes(&g).await;
+    let mut tip = b.genesis;
+    let hb = params.heartbeat;
+    rep.count("bundle_path_histories");
+    for i in 0..(3 * gp + 3) {
+        let id = b.store.get(&tip).id + 1;
+        // a couple of fee-paying payments by other actors reach the pool
+        let mut ex = vec![];
+        for k in 0..2u64 {
+            let from = 1 + ((i + k) % 4) as usize;
+            if let Some(tx) = b.payment(rng, &tip, from, 1 + ((i + k + 1) % 4) as usize, 200 + i, 2_000, &mut ex) {
+                let chain = node.chain.read().await;
+                let mut pool = node.mempool.write().await;
+                pool.add_transaction_if_validates(tx, &chain).await;
+            }
+        }
+        let need_gt = !crate::history::density_ok(&b, &tip, false) || id % 2 == 0;
+        let gt = if need_gt {
+            let ticket = mine_gt(rng, tip, b.store.get(&tip).block.difficulty, &b.actors[1].pk);
+            let mut t = gt_tx(&ticket, &b.actors[1].clone());
+            t.generate(&b.actors[1].pk, 0, 0);
+            Some(t)
+        } else {
+            None
+        };
+        let ts = b.store.get(&tip).ts + 2 * hb + 6_000;
+        let bundled = {
+            let cfg = node.cfg.read().await;
+            let chain = node.chain.read().await;
+            let mut pool = node.mempool.write().await;
+            crate::panics::catch_async(pool.bundle_block(&chain, ts, gt, cfg.deref(), &node.storage)).await
+        };
+        rep.eval();
+        let block = match bundled {
+            Err(p) => {
+                rep.violation(&format!("C07|clause=bundle-panics|{}", p.signature()), &format!("[bundle-path gp={} stake-period={}] bundle_block panicked at block {}: {}", gp, stake_period, id, p.message), json!({"kind":"bundle-path","gp":gp,"stake_period":stake_period}));
+                return;
+            }
+            Ok(None) => {
+                rep.count("bundle_path_no_block");
+                return;
+            }
+            Ok(Some(bl)) => bl,
+        };
+        rep.count("bundle_path_blocks");
+        if block.transactions.iter().any(|t| t.transaction_type == TransactionType::BlockStake) {
+            rep.count("bundle_path_blocks_with_staking_tx");
+        }
+        if id > gp + 1 {
+            rep.count("bundle_path_blocks_after_window_wrapped");
+        }
+        rep.nontrivial(&format!("bundle|{}|{}|{}|{}", gp, stake_period, id, block.transactions.len()));
+        let bytes = block_bytes(&block);
+        let witness = json!({"kind":"bundle-path","gp":gp,"stake_period":stake_period,"block_hex":hex::encode(&bytes),"chain_hex": b.store.ancestors(&tip).iter().map(|x| hex::encode(&b.store.get(x).bytes)).collect::<Vec<_>>()});
+        match crate::panics::catch_async(node.add_bytes(&bytes)).await {
+            Ok(Some(Added::Ok(true))) => {}
+            Ok(other) => {
+                rep.violation(
+                    &format!("C07|clause=producer-refuses-own-block|path=bundle_block|staking-lock={}", if stake_period > gp { "spans-window" } else { "short" }),
+                    &format!("[bundle-path gp={} stake-period={}] block {} ({} txs, staking tx present: {}) bundled by the node is refused by the node itself ({:?})", gp, stake_period, id, block.transactions.len(), block.transactions.iter().any(|t| t.transaction_type == TransactionType::BlockStake), other.map(|x| x.short())),
+                    witness,
+                );
+                return;
+            }
+            Err(p) => {
+                rep.violation(&format!("C07|clause=producer-panics-on-own-block|path=bundle_block|{}", p.signature()), &format!("[bundle-path gp={}] adding its own block {} panicked: {}", gp, id, p.message), witness);
+                return;
+            }
+        }
+        match crate::panics::catch_async(replica.add_bytes(&bytes)).await {
+            Ok(Some(Added::Ok(true))) => rep.count("bundle_path_accepted_by_replica"),
+            other => {
+                rep.violation("C07|clause=replica-refuses|path=bundle_block", &format!("[bundle-path gp={} stake-period={}] block {} accepted by its producer is refused by a replica ({:?})", gp, stake_period, id, other.map(|x| x.map(|y| y.short())).map_err(|p| p.message)), witness);
+                return;
+            }
+        }
+        tip = b.store.put_bytes(bytes, true, "own");
+    }
+}
+
 pub async fn run(ctx: &Ctx, rep: &mut Report) {
     let mut rng = ctx.rng();
+    for (i, (gp, sp)) in [(6u64, 7u64), (6, 3), (8, 9), (10, 11), (8, 3), (10, 3)].iter().enumerate() {
+        for rpt in 0..ctx.scale(2, 10) {
+            if ctx.mine(i as u64 + 6 * rpt) {
+                bundle_path(&mut rng, rep, *gp, *sp).await;
+            }
+        }
+    }
     let mut all = regimes(&mut Rng::new(ctx.seed ^ 7), ctx.thorough);
     let repeats = ctx.scale(6, 30);
     let mut work = 0u64;
